@@ -494,6 +494,36 @@ func runHistory(t *testing.T, ctx context.Context, k int, hist []bOp) (res bResu
 			}
 		}
 	}
+	// redelivery: every composite commit known to a replica is delivered again to every other replica,
+	// oldest first and newest first; nothing may change (C02: "no matter how often or in what order a
+	// commit or any of its ancestors is delivered again")
+	if os.Getenv("VERIF_BOUND_NOREDELIVER") == "" {
+		before := make([]string, k)
+		for i, r := range reps {
+			before[i] = r.view(ctx, docID)
+		}
+		for a := 0; a < k; a++ {
+			all := reps[a].allComposites(ctx, docID)
+			for b := 0; b < k; b++ {
+				if a == b {
+					continue
+				}
+				for _, order := range [][]cid.Cid{all, reversed(all)} {
+					for _, c := range order {
+						if err := deliver(ctx, reps[a], reps[b], docID, c); err != nil {
+							res.MergeErrs = append(res.MergeErrs, fmt.Sprintf("redelivery r%d>r%d %s: %v", a, b, c, err))
+						}
+					}
+				}
+			}
+		}
+		for i, r := range reps {
+			if v := r.view(ctx, docID); v != before[i] {
+				res.Problems = append(res.Problems, fmt.Sprintf("C02: redelivery of already merged commits changed r%d: {%s} -> {%s}", i, before[i], v))
+				res.Problems = append(res.Problems, fmt.Sprintf("C01: redelivery of already merged commits changed r%d", i))
+			}
+		}
+	}
 	if len(res.MergeErrs) > 0 {
 		res.Problems = append(res.Problems, fmt.Sprintf("C01: %d merges of well-formed commits failed (first: %s)", len(res.MergeErrs), res.MergeErrs[0]))
 	}
@@ -517,6 +547,53 @@ func runHistory(t *testing.T, ctx context.Context, k int, hist []bOp) (res bResu
 		}
 	}
 	return res
+}
+
+func reversed(c []cid.Cid) []cid.Cid {
+	out := make([]cid.Cid, len(c))
+	for i := range c {
+		out[len(c)-1-i] = c[i]
+	}
+	return out
+}
+
+// allComposites: every composite commit reachable from the document's heads, oldest (lowest height) first
+func (r *replica) allComposites(ctx context.Context, docID string) []cid.Cid {
+	bs := datastore.BlockstoreFrom(r.store)
+	heads, _ := r.docHeads(ctx, docID)
+	seen := map[cid.Cid]uint64{}
+	var walk func(c cid.Cid)
+	walk = func(c cid.Cid) {
+		if _, ok := seen[c]; ok {
+			return
+		}
+		raw, err := bs.Get(ctx, c)
+		if err != nil {
+			return
+		}
+		b, err := coreblock.GetFromBytes(raw.RawData())
+		if err != nil {
+			return
+		}
+		seen[c] = b.Delta.GetPriority()
+		for _, h := range b.Heads {
+			walk(h.Cid)
+		}
+	}
+	for _, h := range heads {
+		walk(h)
+	}
+	var out []cid.Cid
+	for c := range seen {
+		out = append(out, c)
+	}
+	sort.Slice(out, func(i, j int) bool {
+		if seen[out[i]] != seen[out[j]] {
+			return seen[out[i]] < seen[out[j]]
+		}
+		return out[i].String() < out[j].String()
+	})
+	return out
 }
 
 // dagProblems checks the stored commit graph of one document on one replica.
@@ -611,6 +688,35 @@ func TestGovcBoundedMerge(t *testing.T) {
 		}
 	}
 	rec(nil)
+	// directed families (cheap, deeper than the exhaustive bound): fork-join "r0.a; r1.b; sync(r1>r0);
+	// r0.c" (a merge commit with two parents reaches a replica that lacks one of them) and
+	// "r0.a; r0.b; r1.c; sync(r1>r0)" (the receiver is two commits ahead of the fork point)
+	if os.Getenv("VERIF_BOUND_FAMILIES") != "0" && k == 2 {
+		var local []bOp
+		for _, o := range alpha {
+			if o.kind != "sync" && o.r == 0 {
+				local = append(local, o)
+			}
+		}
+		at := func(o bOp, r int) bOp { o.r = r; if o.kind == "inc" { o.val = int64(1 + r) }; return o }
+		for _, a := range local {
+			for _, b := range local {
+				for _, c := range local {
+					for _, h := range [][]bOp{
+						{at(a, 0), at(b, 1), {kind: "sync", r: 1, to: 0}, at(c, 0)},
+						{at(a, 0), at(b, 0), at(c, 1), {kind: "sync", r: 1, to: 0}},
+					} {
+						res := runHistory(t, ctx, k, h)
+						cases++
+						distinct[res.History] = true
+						if len(res.Problems) > 0 {
+							bad = append(bad, res)
+						}
+					}
+				}
+			}
+		}
+	}
 	// optional: VERIF_BOUND_RANDOM histories of length VERIF_BOUND_RLEN on VERIF_BOUND_RK replicas (seeded)
 	nr, rl, rk, seed := 0, 8, 3, int64(1)
 	fmt.Sscanf(os.Getenv("VERIF_BOUND_RANDOM"), "%d", &nr)
